@@ -35,6 +35,34 @@ def spawn_sites(ctx: Ctx, f: Func):
             yield c, tgt, args
 
 
+def handler_branches(ctx: Ctx, rule: str, tf: Func, h: ast.ExceptHandler, exc_param: str) -> None:
+    """the catch-all of the task target decides between `re-raise` and `put into the channel` on the channel itself:
+    a put happens only where the channel is known to exist, a re-raise only where it is known to be absent (a re-raise
+    inside a worker thread is lost), and no path leaves the handler without one of the two."""
+    tcfg = cfg_of(tf.node)
+    subj = ast.Name(id=exc_param, ctx=ast.Load())
+    puts = [x for x in ast.walk(h) if isinstance(x, ast.Call) and isinstance(x.func, ast.Attribute) and x.func.attr in ("put", "put_nowait")
+            and isinstance(x.func.value, ast.Name) and x.func.value.id == exc_param]
+    raises = [x for x in ast.walk(h) if isinstance(x, ast.Raise)]
+    for x in puts:
+        ctx.check(q.known_not_none(q.facts_at(tf, x), subj), rule, tf, x, "exception is put into the channel where the channel exists",
+                  f"the handler puts the exception into '{exc_param}' on a branch that did not establish that '{exc_param}' is present "
+                  "(the branch tests something else): with the channel given but the tested object absent the exception is re-raised inside the worker thread and lost",
+                  construct=f"handler put {exc_param}")
+    for r in raises:
+        facts = q.facts_at(tf, r)
+        absent = any((t := q.is_none_test(cd)) is not None and isinstance(t[0], ast.Name) and t[0].id == exc_param and t[1] == pol for cd, pol in facts) \
+            or any(isinstance(cd, ast.Name) and cd.id == exc_param and not pol for cd, pol in facts)
+        ctx.check(absent, rule, tf, r, "exception is re-raised only where no channel was given",
+                  f"the handler re-raises on a branch that is not conditioned on '{exc_param}' being absent: when the task runs in a worker thread with the channel "
+                  "given, the exception dies with the thread and extraction/testzip report success", construct=f"handler raise vs {exc_param}")
+    hn = tcfg.by_ast.get(h)
+    if hn is not None:
+        stops = [q.node_for(tf, x) for x in puts] + [q.node_for(tf, r) for r in raises]
+        ctx.check(not tcfg.reaches(hn, tcfg.exit, avoid=stops, normal_only=True), rule, tf, h, "no path leaves the handler without raise or put",
+                  "a path through the task target's catch-all neither re-raises nor forwards the exception", construct="handler fallthrough")
+
+
 def run(ctx: Ctx) -> None:
     ex = ctx.prog.func("py7zr", "Worker.extract")
     cfg = cfg_of(ex.node)
@@ -148,6 +176,7 @@ def run(ctx: Ctx) -> None:
                 hn = tcfg.by_ast[h]
                 none_branch_raises = any(isinstance(x, ast.Raise) for x in ast.walk(h))
                 ctx.check(none_branch_raises, "R13.3", tf, h, "without a channel the exception is re-raised", "the task target swallows exceptions when no channel is given")
+                handler_branches(ctx, "R13.3", tf, h, exc_param)
         # all started tasks joined, then channel checked and re-raised
         started = q.node_for(ex, [x for x in q.calls(ex) if attr_tail(x) == "start"][0]) if [x for x in q.calls(ex) if attr_tail(x) == "start"] else None
         joins = [x for x in q.calls(ex) if attr_tail(x) == "join"]
